@@ -8,7 +8,7 @@
    absorption flag of the "no passing p-value" threshold. *)
 From Coq Require Import QArith.Qabs.
 From CNV Require Import Base.Prelude Model.Haar Spec.Haar Proofs.HaarConv Proofs.HaarFlat
-  Proofs.HaarUnify Proofs.HaarPeaks.
+  Proofs.HaarUnify Proofs.HaarPeaks Proofs.HaarStepLib Proofs.HaarMeans Proofs.HaarStep Proofs.HaarTwoSteps Proofs.HaarTable Proofs.HaarStepW.
 
 Local Open Scope Q_scope.
 
@@ -104,3 +104,198 @@ Proof. exact haar_seg_tiles. Qed.
 
 Example C11_tiles_example : tiles_from 0 10 [0; 3; 7] [2; 6; 9] [3; 4; 3].
 Proof. cbn. repeat split; lia. Qed.
+
+Local Open Scope Q_scope.
+
+(* A noiseless step: value a on bins 0..t-1, b <> a on bins t..n-1, at least 32 bins on each side
+   (2^level for every level 1..5), no weights or the same positive weight on every bin; for every
+   n, t, a, b, q, every p-value / absorption oracle and every non-zero scale constants.  At each
+   level the convolution is the tent  amp * max(0, 2^level - |k - t|)  -- a linear ramp up to t and
+   down after it -- so its absolute value has its single strict maximum at t; FindLocalPeaks returns
+   exactly [t]; with one peak the FDR threshold is 0 (`if M < 2: return 0`) and the peak is kept;
+   UnifyLevels of [t] with [t] stays [t]; the result is the one breakpoint t and two segments
+   0..t-1 and t..n-1 of sizes t and n-t whose means are exactly a and b. *)
+Theorem C11_clean_step : forall (scale_u scale_w : Z -> Q) (pvals : Z -> list Q) (absorb : Z -> bool),
+  (forall h, ~ scale_u h == 0) -> (forall h, ~ scale_w h == 0) ->
+  forall (a b : Q) (t n : nat) (wt : option (list Q)) (q : Q),
+  ~ a == b -> uniform_weights n wt -> (32 <= t)%nat -> (t + 32 <= n)%nat ->
+  let sg := step_signal a b t n in
+  let r := haar_seg scale_u scale_w pvals absorb sg wt q in
+  let T := Z.of_nat t in
+  let N := Z.of_nat n in
+  (forall level, (1 <= level <= 5)%Z ->
+     let h := (2 ^ level)%Z in
+     let conv := conv_level scale_u scale_w sg wt h in
+     (forall k, (0 <= k < N)%Z ->
+        qnth conv k == step_amp (match wt with None => scale_u h | Some _ => scale_w h end) wt h (b - a)
+                       * tentQ h T k) /\
+     (forall k, (0 <= k < N)%Z -> k <> T -> Qabs (qnth conv k) < Qabs (qnth conv T)) /\
+     level_peaks scale_u scale_w sg wt level = [T] /\
+     level_addon scale_u scale_w pvals absorb sg wt q level = [T]) /\
+  hr_breaks r = [T] /\ hr_start r = [0; T]%Z /\ hr_end r = [T - 1; N - 1]%Z /\
+  hr_size r = [T; N - T]%Z /\
+  exists m1 m2, hr_mean r = [m1; m2] /\ m1 == a /\ m2 == b.
+Proof. exact step_haar_seg. Qed.
+
+(* The same for ARBITRARY positive bin weights (the property's quantifier has weights in [0.5, 1]):
+   the weighted convolution of the step is  scale_w h * (b - a) * weighted_tent w t h k  where
+   weighted_tent is (share of the upper window's weight lying at or after t) - (the same share of the
+   lower window): 0 up to t-h, strictly increasing up to t where it is 1, strictly decreasing to t+h,
+   0 after.  Hence again exactly the peak [t] at every level, threshold 0, breakpoint t, means a and b. *)
+Theorem C11_clean_step_weighted : forall (scale_u scale_w : Z -> Q) (pvals : Z -> list Q) (absorb : Z -> bool),
+  (forall h, ~ scale_w h == 0) ->
+  forall (a b : Q) (t n : nat) (w : list Q) (q : Q),
+  ~ a == b -> length w = n -> Forall (fun x => 0 < x) w -> (32 <= t)%nat -> (t + 32 <= n)%nat ->
+  let sg := step_signal a b t n in
+  let r := haar_seg scale_u scale_w pvals absorb sg (Some w) q in
+  let T := Z.of_nat t in
+  let N := Z.of_nat n in
+  (forall level, (1 <= level <= 5)%Z ->
+     let h := (2 ^ level)%Z in
+     let conv := conv_level scale_u scale_w sg (Some w) h in
+     (forall k, (0 <= k < N)%Z -> qnth conv k == scale_w h * (b - a) * weighted_tent w T h k) /\
+     (forall k, (0 <= k)%Z -> (k + h <= T)%Z -> weighted_tent w T h k == 0) /\
+     (forall k, (T + h <= k < N)%Z -> weighted_tent w T h k == 0) /\
+     (forall k, (0 <= k)%Z -> (T - h <= k < T)%Z -> weighted_tent w T h k < weighted_tent w T h (k + 1)%Z) /\
+     (forall k, (T <= k < T + h)%Z -> weighted_tent w T h (k + 1)%Z < weighted_tent w T h k) /\
+     weighted_tent w T h T == 1 /\
+     level_peaks scale_u scale_w sg (Some w) level = [T] /\
+     level_addon scale_u scale_w pvals absorb sg (Some w) q level = [T]) /\
+  hr_breaks r = [T] /\ hr_start r = [0; T]%Z /\ hr_end r = [T - 1; N - 1]%Z /\
+  hr_size r = [T; N - T]%Z /\
+  exists m1 m2, hr_mean r = [m1; m2] /\ m1 == a /\ m2 == b.
+Proof. exact step_haar_seg_w. Qed.
+
+Example C11_clean_step_weighted_example :
+  let w := repeat (1 # 2) 30 ++ repeat 1 20 ++ repeat (3 # 4) 30 in
+  let sg := step_signal 0 1 40 80 in
+  hr_breaks (haar_seg (fun _ => 1) (fun _ => 1) (fun _ => []) (fun _ => false) sg (Some w) (1 # 10000)) = [40%Z] /\
+  weighted_tent w 40 4 38 == 1 # 2 /\ weighted_tent w 40 4 40 == 1 /\ weighted_tent w 40 4 36 == 0.
+Proof. vm_compute. repeat split; reflexivity. Qed.
+
+(* the shape on its own, at any half-width h with at least h bins on each side, any scale *)
+Theorem C11_step_conv_shape : forall (a b : Q) (t n : nat) (wt : option (list Q)) (h : Z) (scale : Q) (k : Z),
+  uniform_weights n wt ->
+  (1 <= h <= Z.of_nat t)%Z -> (Z.of_nat t + h <= Z.of_nat n)%Z -> (0 <= k < Z.of_nat n)%Z ->
+  qnth (haar_conv (step_signal a b t n) wt h scale) k
+  == step_amp scale wt h (b - a) * tentQ h (Z.of_nat t) k.
+Proof. exact step_conv. Qed.
+
+Example C11_clean_step_example :
+  let sg := step_signal 0 (-1) 40 80 in
+  let r := haar_seg (fun _ => 2) (fun _ => 2) (fun _ => []) (fun _ => false) sg None (1 # 10000) in
+  hr_breaks r = [40%Z] /\ hr_size r = [40%Z; 40%Z] /\ hr_mean r = [0; -1] /\
+  qnth (haar_conv sg None 4 1) 38 = -2 /\ qnth (haar_conv sg None 4 1) 40 = -4 /\ tent 4 40 38 = 2%Z.
+Proof. vm_compute. repeat split; reflexivity. Qed.
+
+(* SegmentByPeaks, for ANY breakpoint list (strictly increasing, inside 0..n) and any weights of the
+   data's length: the segments (0,p1), (p1,p2), ..., (pk,n) are non-empty, cover every bin, and every
+   bin of a segment carries that segment's own mean -- the weighted mean of exactly the bins s..e-1
+   when the segment's total weight is positive, their plain mean when it is not or no weights are given. *)
+Theorem C11_segment_means : forall (data : list Q) (peaks : list Z) (wt : option (list Q)),
+  data <> [] -> breaks_in (Zlength_nat data) peaks -> wt_len_ok data wt ->
+  let n := Zlength_nat data in
+  length (segment_by_peaks data peaks wt) = length data /\
+  (forall i, (0 <= i < n)%Z -> exists s e, In (s, e) (segments_of 0 peaks n) /\ (s <= i < e)%Z) /\
+  (forall s e, In (s, e) (segments_of 0 peaks n) ->
+     (0 <= s < e)%Z /\ (e <= n)%Z /\
+     exists m, is_segment_mean data wt s e m /\
+               forall i, (s <= i < e)%Z -> qnth (segment_by_peaks data peaks wt) i = m).
+Proof. exact segment_by_peaks_means. Qed.
+
+(* The rows of the haarSeg result table, for every signal, weights and oracle values: row j is
+   (start = s_j, end = e_j - 1, size = e_j - s_j, mean = the (weighted) mean of exactly the bins
+   s_j..e_j-1) where (s_j, e_j) are the segments cut by the reported breakpoints; together with
+   C11_sizes the rows tile 0..n-1. *)
+Theorem C11_step_means : forall (scale_u scale_w : Z -> Q) (pvals : Z -> list Q) (absorb : Z -> bool)
+    (sg : list Q) (wt : option (list Q)) (q : Q),
+  sg <> [] -> wt_len_ok sg wt ->
+  let r := haar_seg scale_u scale_w pvals absorb sg wt q in
+  breaks_in (Zlength_nat sg) (hr_breaks r) /\
+  rows_ok sg wt (segments_of 0 (hr_breaks r) (Zlength_nat sg)) (hr_start r) (hr_end r) (hr_size r) (hr_mean r).
+Proof. exact haar_seg_rows. Qed.
+
+(* Two well separated noiseless steps: a on 0..t1-1, b <> a on t1..t2-1, c <> b on t2..n-1, at least
+   32 bins before the first, 64 between them and 32 after the second; no or uniform weights.  At every
+   level the convolution is the sum of two disjoint tents and FindLocalPeaks returns exactly [t1; t2].
+   With two peaks the FDR threshold is no longer trivially 0: it depends on the p-value oracle, and with a
+   noiseless signal (sigma estimate 0) the code's fallback `x_sorted[0] + 1e-16` can reject the smaller or
+   both peaks.  Proved for every oracle: the reported breakpoints are strictly increasing, are never
+   anything but t1 and t2, and t_i is reported exactly when its peak passes the threshold of at least one
+   level; when both do, the table is three segments 0..t1-1, t1..t2-1, t2..n-1 with means exactly a, b, c. *)
+Theorem C11_two_steps : forall (scale_u scale_w : Z -> Q) (pvals : Z -> list Q) (absorb : Z -> bool),
+  (forall h, ~ scale_u h == 0) -> (forall h, ~ scale_w h == 0) ->
+  forall (a b c : Q) (t1 t2 n : nat) (wt : option (list Q)) (q : Q),
+  ~ a == b -> ~ b == c -> uniform_weights n wt ->
+  (32 <= t1)%nat -> (t1 + 64 <= t2)%nat -> (t2 + 32 <= n)%nat ->
+  let sg := two_step_signal a b c t1 t2 n in
+  let T1 := Z.of_nat t1 in
+  let T2 := Z.of_nat t2 in
+  let N := Z.of_nat n in
+  let conv level := conv_level scale_u scale_w sg wt (2 ^ level) in
+  let thr level := fdr_thres [qnth (conv level) T1; qnth (conv level) T2] q (pvals level) (absorb level) in
+  let kept level x := Qle_bool (thr level) (Qabs (qnth (conv level) x)) in
+  let r := haar_seg scale_u scale_w pvals absorb sg wt q in
+  (forall level, (1 <= level <= 5)%Z ->
+     let h := (2 ^ level)%Z in
+     (forall k, (0 <= k < N)%Z ->
+        qnth (conv level) k ==
+        step_amp (match wt with None => scale_u h | Some _ => scale_w h end) wt h (b - a) * tentQ h T1 k
+        + step_amp (match wt with None => scale_u h | Some _ => scale_w h end) wt h (c - b) * tentQ h T2 k) /\
+     level_peaks scale_u scale_w sg wt level = [T1; T2] /\
+     level_addon scale_u scale_w pvals absorb sg wt q level = filter (kept level) [T1; T2]) /\
+  ssorted (hr_breaks r) /\
+  (forall x, In x (hr_breaks r) <->
+             (x = T1 \/ x = T2) /\ exists l, (1 <= l <= 5)%Z /\ kept l x = true) /\
+  ((exists l, (1 <= l <= 5)%Z /\ kept l T1 = true) ->
+   (exists l, (1 <= l <= 5)%Z /\ kept l T2 = true) ->
+   hr_breaks r = [T1; T2] /\ hr_start r = [0; T1; T2]%Z /\ hr_end r = [T1 - 1; T2 - 1; N - 1]%Z /\
+   hr_size r = [T1; T2 - T1; N - T2]%Z /\
+   exists m1 m2 m3, hr_mean r = [m1; m2; m3] /\ m1 == a /\ m2 == b /\ m3 == c).
+Proof. exact two_step_haar_seg. Qed.
+
+(* both outcomes are real: with the absorption flag (|peak| >= 1 in the code) both equal steps are
+   found; a pair of unequal steps without a passing p-value loses the smaller one *)
+Example C11_two_steps_example :
+  let sg := two_step_signal 0 1 0 40 110 150 in
+  let sg2 := two_step_signal 0 1 (1 # 2) 40 110 150 in
+  hr_breaks (haar_seg (fun _ => 2) (fun _ => 2) (fun _ => [1; 1]) (fun _ => true) sg None (1 # 10000))
+    = [40%Z; 110%Z] /\
+  hr_breaks (haar_seg (fun _ => 2) (fun _ => 2) (fun _ => [1; 1]) (fun _ => true) sg2 None (1 # 10000))
+    = [40%Z] /\
+  hr_breaks (haar_seg (fun _ => 2) (fun _ => 2) (fun _ => [1; 1]) (fun _ => false) sg2 None (1 # 10000))
+    = [].
+Proof. vm_compute. repeat split; reflexivity. Qed.
+
+(* The table one_chrom builds from the bin coordinates (any signal, weights, oracle values, any
+   coordinate columns): one row per segment of the reported breakpoints -- start = start coordinate of
+   the segment's first bin, end = end coordinate of its last bin, log2 = the (weighted) mean of exactly
+   its bins, probes = its number of bins; the probes column is the size column and sums to n. *)
+Theorem C11_table : forall (scale_u scale_w : Z -> Q) (pvals : Z -> list Q) (absorb : Z -> bool)
+    (sg : list Q) (wt : option (list Q)) (q : Q) (starts ends : list Z),
+  sg <> [] -> wt_len_ok sg wt ->
+  let r := haar_seg scale_u scale_w pvals absorb sg wt q in
+  let rows := one_chrom_table starts ends r in
+  table_ok sg wt starts ends (segments_of 0 (hr_breaks r) (Zlength_nat sg)) rows /\
+  map (fun r : Z * Z * Q * Z => snd r) rows = hr_size r /\
+  sumZ (map (fun r : Z * Z * Q * Z => snd r) rows) = Zlength_nat sg.
+Proof. exact one_chrom_table_ok. Qed.
+
+(* ... and for the clean step of C11_clean_step the table is exactly the two rows
+   (start of bin 0, end of bin t-1, a, t) and (start of bin t, end of bin n-1, b, n-t). *)
+Theorem C11_clean_step_table : forall (scale_u scale_w : Z -> Q) (pvals : Z -> list Q) (absorb : Z -> bool),
+  (forall h, ~ scale_u h == 0) -> (forall h, ~ scale_w h == 0) ->
+  forall (a b : Q) (t n : nat) (wt : option (list Q)) (q : Q) (starts ends : list Z),
+  ~ a == b -> uniform_weights n wt -> (32 <= t)%nat -> (t + 32 <= n)%nat ->
+  let r := haar_seg scale_u scale_w pvals absorb (step_signal a b t n) wt q in
+  exists m1 m2,
+    one_chrom_table starts ends r =
+      [(nth 0 starts 0%Z, nth (t - 1) ends 0%Z, m1, Z.of_nat t);
+       (nth t starts 0%Z, nth (n - 1) ends 0%Z, m2, (Z.of_nat n - Z.of_nat t)%Z)] /\
+    m1 == a /\ m2 == b.
+Proof. exact step_one_chrom_table. Qed.
+
+Example C11_segment_means_example :
+  segment_by_peaks [1; 3; 5; 7; 9] [2%Z] (Some [1; 1; 1; 3; 0]) = [2; 2; 13 # 2; 13 # 2; 13 # 2] /\
+  range_wmean [1; 3; 5; 7; 9] [1; 1; 1; 3; 0] 2 5 == 13 # 2 /\ range_mean [1; 3; 5; 7; 9] 0 2 == 2.
+Proof. vm_compute. repeat split; reflexivity. Qed.
